@@ -113,6 +113,98 @@ let show_entry ((k, l) : (n list * lval)) = match l with
   | LP v -> show_str k ^ "=" ^ show_plval v
   | LM m -> show_str k ^ "=m[" ^ String.concat " ! " (List.map (fun (k2, v2) -> show_str k2 ^ "=" ^ show_plval v2) m) ^ "]"
 let flavor_of s = if s = "legacy" then Legacy else Ais
+(* ---- mesh container (Asset/MeshLayout.v).  Sections of a case are separated by " | "; keys are k<hex of the UTF-8 name>.
+   header entries  k..:S:<off>:<size>:<extra id>  |  k..:O:<value id>        (ids name opaque LLSD values)
+   MW <allow> | header | segments k..:P:<hex of deflate(value)> / k..:B:<hex> | raw_segments k..:<hex>
+      -> ERR | H <header entries> | B <body hex>
+   MP <allow> <incl> <header_end> | header | <buffer hex> | oracle  k..:<slice hex>=o<idx> / =z / =x
+      -> ERR | S k..=<idx> ... | R k..=<slice hex> ...       (NOORACLE <key>:<hex> if the table has no answer)
+   MC <allow> <header_end> | header | <buffer hex>
+      -> every (key, slice) the reader would hand to inflate if every answer were a value:  k..:<hex> ...
+   MS k.. k.. ...  -> the keys sorted by sorted(keys, key=_segment_sort) *)
+exception No_oracle of string
+let sections (line:string) : string list =
+  (* split at " | " keeping empty sections *)
+  let parts = String.split_on_char '|' line in List.map String.trim parts
+let key_of (w:string) : n list = bytes_of_hex (String.sub w 1 (String.length w - 1))
+let show_mkey (k : n list) = "k" ^ hex_of_bytes k
+let parse_hentry (w:string) : (n list * int hval) =
+  match String.split_on_char ':' w with
+  | [k; "S"; o; sz; e] -> (key_of k, HSeg (z_of_int (int_of_string o), z_of_int (int_of_string sz), int_of_string e))
+  | [k; "O"; v] -> (key_of k, HOther (int_of_string v))
+  | _ -> failwith ("header entry " ^ w)
+let show_hentry ((k, v) : (n list * int hval)) = match v with
+  | HSeg (o, sz, e) -> Printf.sprintf "%s:S:%d:%d:%d" (show_mkey k) (int_of_z o) (int_of_z sz) e
+  | HOther x -> Printf.sprintf "%s:O:%d" (show_mkey k) x
+let live_rank = rank known_segments
+(* ---- animations (Asset/Anim.v).  Typed tokens: decimal ints, f<hex8> raw floats, q<dec> quantised wire ints,
+   t<dec>/tf<hex8> keyframe times, h<hex> byte strings (h alone = empty).
+   AP hex  -> ERR | OK <tokens> # wf=<b> rest=<n> W=<hex|ERR>
+   AW toks -> W=<hex|ERR> wf=<b> rt=<b>      (rt: the model parses its own output back to the same value, nothing left) *)
+let tok_bytes (l : n list) = "h" ^ hex_of_bytes l
+let tok_f (x : n) = Printf.sprintf "f%08x" (int_of_n x)
+let show_key w (k : key) =
+  if w = 4 then Printf.sprintf "tf%08x %s %s %s" (int_of_n k.k_time) (tok_f k.k_x) (tok_f k.k_y) (tok_f k.k_z)
+  else Printf.sprintf "t%d q%d q%d q%d" (int_of_n k.k_time) (int_of_n k.k_x) (int_of_n k.k_y) (int_of_n k.k_z)
+let show_vec3 ((xy, z) : (n * n) * n) = let (x, y) = xy in Printf.sprintf "%s %s %s" (tok_f x) (tok_f y) (tok_f z)
+let show_anim (a : anim) : string =
+  let w = if int_of_n a.a_major = 0 && int_of_n a.a_minor = 1 then 4 else 2 in
+  let b = Buffer.create 256 in
+  let add s = Buffer.add_string b s; Buffer.add_char b ' ' in
+  add (string_of_int (int_of_n a.a_major)); add (string_of_int (int_of_n a.a_minor));
+  add (string_of_int (int_of_z a.a_base_prio)); add (tok_f a.a_duration); add (tok_bytes a.a_emote);
+  add (tok_f a.a_loop_in); add (tok_f a.a_loop_out); add (string_of_int (int_of_z a.a_loop));
+  add (tok_f a.a_ease_in); add (tok_f a.a_ease_out); add (string_of_int (int_of_n a.a_hand_pose));
+  add (Printf.sprintf "J%d" (List.length a.a_joints));
+  List.iter (fun (j : joint) ->
+      add (tok_bytes j.j_name); add (string_of_int (int_of_z j.j_prio));
+      add (Printf.sprintf "R%d" (List.length j.j_rot)); List.iter (fun k -> add (show_key w k)) j.j_rot;
+      add (Printf.sprintf "P%d" (List.length j.j_pos)); List.iter (fun k -> add (show_key w k)) j.j_pos) a.a_joints;
+  add (Printf.sprintf "C%d" (List.length a.a_constraints));
+  List.iter (fun (c : constr) ->
+      add (string_of_int (int_of_n c.c_chain)); add (string_of_int (int_of_n c.c_type));
+      add (tok_bytes c.c_src_vol); add (show_vec3 c.c_src_off); add (tok_bytes c.c_tgt_vol);
+      add (show_vec3 c.c_tgt_off); add (show_vec3 c.c_tgt_dir);
+      add (tok_f c.c_ease_in_start); add (tok_f c.c_ease_in_stop); add (tok_f c.c_ease_out_start); add (tok_f c.c_ease_out_stop))
+    a.a_constraints;
+  String.trim (Buffer.contents b)
+let anim_of_tokens (ws : string list) : anim =
+  let q = ref ws in
+  let next () = match !q with [] -> failwith "anim tokens" | x :: r -> q := r; x in
+  let body s k = String.sub s k (String.length s - k) in
+  let int_tok () = int_of_string (next ()) in
+  let nat_tok () = n_of_int (int_tok ()) in
+  let z_tok () = z_of_int (int_tok ()) in
+  let f_tok () = let s = next () in n_of_int (int_of_string ("0x" ^ body s 1)) in
+  let h_tok () = bytes_of_hex (body (next ()) 1) in
+  let cnt c = let s = next () in if s.[0] <> c then failwith "anim count" else int_of_string (body s 1) in
+  let num_tok () = let s = next () in
+    if String.length s >= 2 && s.[0] = 't' && s.[1] = 'f' then n_of_int (int_of_string ("0x" ^ body s 2))
+    else if s.[0] = 'f' then n_of_int (int_of_string ("0x" ^ body s 1))
+    else n_of_int (int_of_string (body s 1)) in
+  let key_tok () = let t = num_tok () in let x = num_tok () in let y = num_tok () in let z = num_tok () in
+    { k_time = t; k_x = x; k_y = y; k_z = z } in
+  let vec () = let x = f_tok () in let y = f_tok () in let z = f_tok () in ((x, y), z) in
+  let rec rep n f = if n <= 0 then [] else let x = f () in x :: rep (n - 1) f in
+  let maj = nat_tok () in let mi = nat_tok () in let bp = z_tok () in let du = f_tok () in let em = h_tok () in
+  let li = f_tok () in let lo = f_tok () in let lp = z_tok () in let ei = f_tok () in let eo = f_tok () in
+  let hp = nat_tok () in
+  let nj = cnt 'J' in
+  let js = rep nj (fun () ->
+      let nm = h_tok () in let pr = z_tok () in
+      let nr = cnt 'R' in let rot = rep nr key_tok in
+      let np = cnt 'P' in let pos = rep np key_tok in
+      { j_name = nm; j_prio = pr; j_rot = rot; j_pos = pos }) in
+  let nc = cnt 'C' in
+  let cs = rep nc (fun () ->
+      let ch = nat_tok () in let ty = nat_tok () in let sv = h_tok () in let so = vec () in let tv = h_tok () in
+      let t_o = vec () in let td = vec () in
+      let e1 = f_tok () in let e2 = f_tok () in let e3 = f_tok () in let e4 = f_tok () in
+      { c_chain = ch; c_type = ty; c_src_vol = sv; c_src_off = so; c_tgt_vol = tv; c_tgt_off = t_o; c_tgt_dir = td;
+        c_ease_in_start = e1; c_ease_in_stop = e2; c_ease_out_start = e3; c_ease_out_stop = e4 }) in
+  { a_major = maj; a_minor = mi; a_base_prio = bp; a_duration = du; a_emote = em; a_loop_in = li; a_loop_out = lo;
+    a_loop = lp; a_ease_in = ei; a_ease_out = eo; a_hand_pose = hp; a_joints = js; a_constraints = cs }
+let show_written (o : n list option) = match o with Some b -> hex_of_bytes b | None -> "ERR"
 let () =
   try
     while true do
@@ -184,6 +276,69 @@ let () =
         (match from_llsd (flavor_of fl) sch d with
          | None -> print_endline "ERR"
          | Some r -> print_endline (String.concat " ; " (List.map show_fval r)))
+      | ["AP"] | ["AP"; _] ->
+        let bs = (match words line with [_; h] -> bytes_of_hex h | _ -> []) in
+        (match parse_anim bs with
+         | None -> print_endline "ERR"
+         | Some (a, rest) ->
+           Printf.printf "OK %s # wf=%b rest=%d W=%s\n" (show_anim a) (wf_anim a) (List.length rest) (show_written (write_anim a)))
+      | "AW" :: toks ->
+        let a = anim_of_tokens toks in
+        let w = write_anim a in
+        let rt = (match w with
+            | None -> false
+            | Some b -> (match parse_anim b with Some (a2, []) -> show_anim a2 = show_anim a | _ -> false)) in
+        Printf.printf "W=%s wf=%b rt=%b\n" (show_written w) (wf_anim a) rt
+      | ["U8"] | ["U8"; _] ->
+        let bs = (match words line with [_; h] -> bytes_of_hex h | _ -> []) in
+        print_endline (if utf8_valid bs then "1" else "0")
+      | "MW" :: allow :: _ ->
+        (match sections line with
+         | [_; h; sg; rw] ->
+           let hdr = List.map parse_hentry (words h) in
+           let segs = List.map (fun w -> match String.split_on_char ':' w with
+               | [k; "P"; b] -> (key_of k, SParsed (bytes_of_hex b))
+               | [k; "B"; b] -> (key_of k, SBytes (bytes_of_hex b))
+               | _ -> failwith "segment") (words sg) in
+           let raws = List.map (fun w -> match String.split_on_char ':' w with
+               | [k; b] -> (key_of k, bytes_of_hex b) | _ -> failwith "raw") (words rw) in
+           let m = { m_header = hdr; m_segments = segs; m_raw = raws } in
+           (match write_layout live_rank (fun _ b -> b) (allow = "1") m with
+            | None -> print_endline "ERR"
+            | Some (h2, body) -> Printf.printf "H %s | B %s\n" (String.concat " " (List.map show_hentry h2)) (hex_of_bytes body))
+         | _ -> print_endline "?")
+      | "MP" :: allow :: incl :: hend :: _ ->
+        (match sections line with
+         | [_; h; buf; orc] ->
+           let hdr = List.map parse_hentry (words h) in
+           let table = List.map (fun w -> let i = String.index w '=' in
+                                  (String.sub w 0 i, String.sub w (i + 1) (String.length w - i - 1))) (words orc) in
+           let inflate k b =
+             let q = show_mkey k ^ ":" ^ hex_of_bytes b in
+             (match List.assoc_opt q table with
+              | None -> raise (No_oracle q)
+              | Some "z" -> IZlib
+              | Some "x" -> IOther
+              | Some a -> IOk (int_of_string (String.sub a 1 (String.length a - 1)))) in
+           (try
+              match parse_segments inflate (allow = "1") (incl = "1") (bytes_of_hex buf) (z_of_int (int_of_string hend)) hdr with
+              | None -> print_endline "ERR"
+              | Some (sg, rw) ->
+                Printf.printf "S %s | R %s\n" (String.concat " " (List.map (fun (k, i) -> Printf.sprintf "%s=%d" (show_mkey k) i) sg))
+                  (String.concat " " (List.map (fun (k, b) -> Printf.sprintf "%s=%s" (show_mkey k) (hex_of_bytes b)) rw))
+            with No_oracle q -> print_endline ("NOORACLE " ^ q))
+         | _ -> print_endline "?")
+      | "MC" :: allow :: hend :: _ ->
+        (match sections line with
+         | [_; h; buf] ->
+           let hdr = List.map parse_hentry (words h) in
+           let asked = ref [] in
+           let inflate k b = asked := (show_mkey k ^ ":" ^ hex_of_bytes b) :: !asked; IOk 0 in
+           let _ = parse_segments inflate (allow = "1") false (bytes_of_hex buf) (z_of_int (int_of_string hend)) hdr in
+           print_endline (String.concat " " (List.rev !asked))
+         | _ -> print_endline "?")
+      | "MS" :: ks ->
+        print_endline (String.concat " " (List.map show_mkey (sort_keys live_rank (List.map key_of ks))))
       | ["I"; z] -> let t = int_to_text (z_of_int (int_of_string z)) in
         Printf.printf "%s %s\n" (show_str t) (match int_of_text t with Some r -> string_of_int (int_of_z r) | None -> "ERR")
       | ["U"; h] -> let t = uuid_to_text (n_of_hex h) in
